@@ -8,7 +8,7 @@ package main
 //   fsWS     - minimal parentheses plus random redundant whitespace, newlines, optional semicolons,
 //              alternative spellings (`else if`, `(x) => ..`, brace-less lambda bodies, raw / backtick strings).
 // Beyond gen.go it lays out comments according to their same-line flags, writes raw numeric
-// spellings, and parenthesises a numeric literal in front of a dot.
+// spellings, parenthesises a numeric literal in front of a dot, and writes the general dot `a.(b + c)` (kind dotbad).
 
 import (
 	"math/rand"
@@ -157,6 +157,14 @@ func (r *frender) raw(n J) string {
 			l = "(" + l + ")"
 		}
 		return l + r.j("", jFree) + "." + r.j("", jFree) + n["n"].(string)
+	case "dotbad":
+		// a.(b + c): a dot whose right side is not one identifier / string token exists only with the parentheses
+		r.beyond = true
+		l := r.node(n["l"].(J), precDot-1)
+		if isNumericLeaf(n["l"].(J)) {
+			l = "(" + l + ")"
+		}
+		return l + r.j("", jFree) + "." + r.j("", jFree) + "(" + r.j("", jFree) + r.node(n["i"].(J), precLowest) + r.j("", jFree) + ")"
 	case "call":
 		return r.node(n["f"].(J), precCall-1) + "(" + r.j("", jFree) + r.list(n["a"].([]any)) + r.j("", jFree) + ")"
 	case "bi":
